@@ -7,7 +7,6 @@ import (
 	"strings"
 
 	"github.com/makiuchi-d/gozxing"
-	"github.com/makiuchi-d/gozxing/datamatrix"
 	dmdec "github.com/makiuchi-d/gozxing/datamatrix/decoder"
 	dmenc "github.com/makiuchi-d/gozxing/datamatrix/encoder"
 
@@ -142,7 +141,7 @@ func c02One(r *fw.Rec, o dmOpts, class string) bool {
 	var bm *gozxing.BitMatrix
 	var werr error
 	exceeded, _, _ = dmGuard(limit, func() {
-		bm, werr = datamatrix.NewDataMatrixWriter().Encode(o.text, gozxing.BarcodeFormat_DATA_MATRIX, 0, 0, o.hints())
+		bm, werr = instDMWriter().Encode(o.text, gozxing.BarcodeFormat_DATA_MATRIX, 0, 0, o.hints())
 	})
 	if exceeded {
 		r.Violation("no-progress", "dm.encode:dispatch-loop-makes-no-progress:writer", "DataMatrixWriter.Encode exceeded the dispatch-step limit", info)
@@ -246,13 +245,13 @@ func c02One(r *fw.Rec, o dmOpts, class string) bool {
 		case 1: // lower than the symbol, but wide enough
 			h = r.Rng.Intn(bm.GetHeight())
 		}
-		img, ierr := datamatrix.NewDataMatrixWriter().Encode(o.text, gozxing.BarcodeFormat_DATA_MATRIX, w, h, o.hints())
+		img, ierr := instDMWriter().Encode(o.text, gozxing.BarcodeFormat_DATA_MATRIX, w, h, o.hints())
 		if ierr != nil {
 			r.Violation("roundtrip", "dm.writer:error-at-larger-size", fmt.Sprintf("writer failed at %dx%d after succeeding at 0x0: %v", w, h, ierr), info)
 			return false
 		}
 		bmp, _ := gozxing.NewBinaryBitmapFromImage(img)
-		rr, rerr := datamatrix.NewDataMatrixReader().Decode(bmp, map[gozxing.DecodeHintType]interface{}{gozxing.DecodeHintType_PURE_BARCODE: true})
+		rr, rerr := instDMReader().Decode(bmp, map[gozxing.DecodeHintType]interface{}{gozxing.DecodeHintType_PURE_BARCODE: true})
 		if rerr != nil {
 			r.Violation("roundtrip", "dm.image-path:decode-error", fmt.Sprintf("pure-barcode reader rejected the writer's %dx%d image (scale %d): %v", w, h, k, rerr), info)
 			return false
